@@ -3,4 +3,5 @@ let () =
   match Array.to_list Sys.argv with
   | _ :: "plan-check" :: _ -> Plan_suite.run ()
   | _ :: "exec-check" :: _ -> Exec_suite.run ()
+  | _ :: "world-check" :: _ -> World_suite.run ()
   | _ -> prerr_endline "usage: driver <suite>-check < lines"; exit 2
